@@ -62,9 +62,15 @@ def dump_sets(dump):
     return {r: set(m) for r, m in d.items()}, d
 
 
+_SPEC_CACHE = {}
+
+
 def spec_sets(p, inp):
-    db = eng.naive_model(p, inp)
-    return {r: {eng.sx_tuple(t) for t in db.get(r, ())} for r in range(len(p["rels"]))}
+    key = (id(p), repr(sorted((r, tuple(rows)) for r, rows in inp.items())))
+    if key not in _SPEC_CACHE:
+        db = eng.naive_model(p, inp)
+        _SPEC_CACHE[key] = (p, {r: {eng.sx_tuple(t) for t in db.get(r, ())} for r in range(len(p["rels"]))})
+    return _SPEC_CACHE[key][1]
 
 
 def canon_iters(line):
